@@ -309,6 +309,11 @@ func (e *Engine) pureCallee(fn *types.Func) bool {
 	switch fn.Pkg().Path() {
 	case "strings", "unicode", "unicode/utf8", "strconv", "errors":
 		return true
+	case "slices":
+		switch fn.Name() {
+		case "Contains", "Index", "Equal", "BinarySearch":
+			return true // read-only searches (no function argument)
+		}
 	}
 	return false
 }
